@@ -272,6 +272,9 @@ func encodeCall(c *Call, e *env, buf []byte) (barcode.Barcode, error) {
 	return nil, errors.New("simnode: unknown fn " + c.Fn)
 }
 
+// extraFns: additional call kinds registered by optional files (build tags).
+var extraFns = map[string]func(c *Call, slot *CallResult){}
+
 // execCall runs one call and observes it. keep receives barcodes whose
 // argument buffer was overwritten afterwards, for a later re-observation.
 func execCall(c *Call, e *env, keep *[]retained, slot *CallResult) {
@@ -282,6 +285,10 @@ func execCall(c *Call, e *env, keep *[]retained, slot *CallResult) {
 			slot.Stack = string(debug.Stack())
 		}
 	}()
+	if f := extraFns[c.Fn]; f != nil {
+		f(c, slot)
+		return
+	}
 	switch c.Fn {
 	case "bitlist":
 		runBitHistory(c, slot)
